@@ -138,7 +138,8 @@ class Check:
     """One property check run."""
 
     def __init__(self, pid: str, tier: str, repo_root: str = '/repo', seed: int = 0, quiet: bool = False,
-                 evidence_dir: str | None = None):
+                 evidence_dir: str | None = None, overlay: dict | None = None):
+        self.overlay = overlay
         self.pid = pid
         self.tier = tier
         self.seed = seed
@@ -157,7 +158,7 @@ class Check:
             print(*a, flush=True)
 
     def load(self):
-        self.repo = Repo(self.repo_root)
+        self.repo = Repo(self.repo_root, overlay=self.overlay)
         return self.repo
 
     def run_rule(self, rid: str, text: str, fn):
